@@ -15,10 +15,15 @@ BasePaths == {<<>>, <<SL>>, <<SL, a>>, <<SL, a, SL>>, <<SL, a, SL, b>>, <<SL, a,
 UserPort == <<117, 58, 112, 64, 104, 58, 56, 48, 56, 48>>      \* "u:p@h:8080"
 V6Port == <<91, 58, 58, 49, 93, 58, 56, 49>>                  \* "[::1]:81"
 UserOnly == <<117, 64, 104>>                                   \* "u@h"
+(* hosts with characters the IDNA mapping would rewrite (sharp s -> "ss", final sigma -> sigma, full-width h -> h): *)
+(* resolution carries the authority over as it stands                                                           *)
+IdnSharp == <<117, 64, 115, 116, 114, 97, 223, 101, 46, 120, 58, 56, 49>>      \* "u@stra\u00dfe.x:81"
+IdnSigma == <<955, 962, 46, 120>>                                               \* "\u03bb\u03c2.x"
+IdnWide == <<65352, 46, 120>>                                                   \* "\uff48.x"
 Bases == {[scheme |-> <<Scheme>>, auth |-> <<Host>>, path |-> p, query |-> q, frag |-> f] :
             p \in BasePaths, q \in {<<>>, << <<113>> >>, << RepQ >>}, f \in {<<>>, << <<102>> >>}}
          \cup {[scheme |-> <<Scheme>>, auth |-> <<au>>, path |-> p, query |-> q, frag |-> <<>>] :
-            au \in {UserPort, V6Port, UserOnly}, p \in {<<>>, <<SL, a, SL, b>>}, q \in {<<>>, << <<113>> >>}}
+            au \in {UserPort, V6Port, UserOnly, IdnSharp, IdnSigma, IdnWide}, p \in {<<>>, <<SL, a, SL, b>>}, q \in {<<>>, << <<113>> >>}}
 SegAlpha == {<<a>>, <<DOT, DOT, b>>, <<DOT>>, <<DOT, DOT>>, <<>>, <<DOT, DOT, DOT>>}     \* incl. the look-alikes "..b" and "..."
 RECURSIVE SegSeqs(_)
 SegSeqs(n) == IF n = 0 THEN {<<>>} ELSE LET s == SegSeqs(n - 1) IN s \cup {Append(x, g) : x \in {y \in s : Len(y) = n - 1}, g \in SegAlpha}
@@ -31,7 +36,8 @@ RefPaths == {p \in {(IF lead THEN <<SL>> ELSE <<>>) \o Join(ss) \o (IF trail /\ 
 QF == {<< << RepR >>, <<>> >>, << <<>>, <<>> >>, << << <<121>> >>, <<>> >>, << <<>>, << <<115>> >> >>, << << <<121>> >>, << <<115>> >> >>,
        << << <<>> >>, <<>> >>, << <<>>, << <<>> >> >>}
 Refs == {[scheme |-> <<>>, auth |-> <<>>, path |-> p, query |-> qf[1], frag |-> qf[2]] : p \in RefPaths, qf \in QF}
-    \cup {[scheme |-> << <<102, 116, 112>> >>, auth |-> << <<120>> >>, path |-> p, query |-> <<>>, frag |-> <<>>] : p \in {<<>>, <<SL, a, SL, DOT, DOT, SL, b>>}}
+    \cup {[scheme |-> << <<102, 116, 112>> >>, auth |-> << au >>, path |-> p, query |-> <<>>, frag |-> <<>>] :
+             au \in {<<120>>, <<102, 97, 223, 46, 120>>}, p \in {<<>>, <<SL, a, SL, DOT, DOT, SL, b>>}}
 Refs2 == << <<>>, <<DOT, DOT, SL, b>>, <<SL, b>>, <<a>>, <<DOT>> >>
 (* second reference for the chaining law, varied with the first *)
 R2 == [scheme |-> <<>>, auth |-> <<>>, path |-> Refs2[((Len(R.path) + Len(B.path)) % 5) + 1], query |-> <<>>, frag |-> <<>>]
